@@ -5,7 +5,13 @@ from diff import Case
 
 THEOREMS = ["C12_ts_monotone", "C12_nsec_lt_1e9", "C12_sec_nsec_exact", "C12_sec_nsec_monotone",
             "C12_strict_between_statements", "C12_gap_local", "C12_jump_shift", "C12_jump_units",
-            "C12_interpreter_refines"]
+            "C12_interpreter_refines",
+            # whole programs, any library; the real jump calls after `import time` (Props/C12b.v)
+            "C12b_eval_ignores_clock", "C12b_values_independent_of_clock", "C12b_clock_fits", "C12b_jump_insertion",
+            "C12b_jump_removal", "C12b_jump_calls", "C12b_jump_table", "C12b_import_time_available",
+            "C12b_real_jump_insertion", "C12b_file_records_sorted"]
+PROPS = ["C12", "C12b"]
+VO = ["theories/Props/C12.vo", "theories/Props/C12b.vo"]
 RULE = ("random programs over every packet builder with time jumps in all four units at random positions "
         "(magnitudes 0, 1, second-boundary crossers, random), stored packets re-emitted; each program also in a "
         "variant with one extra jump inserted (relational check).  A case is non-trivial when it emits >= 2 "
